@@ -168,6 +168,19 @@ func parent(ck *checks.Check, tier string, seed int64, verif, scratch string) in
 				if len(msg) > 1500 {
 					msg = msg[len(msg)-1500:]
 				}
+				if full := string(tail); strings.Contains(full, "fatal error: concurrent map") && strings.Contains(full, "github.com/volatiletech/authboss/v3") {
+					// the Go runtime killed the process: unsynchronised map access with library frames on the stack
+					frame := ""
+					for _, ln := range strings.Split(full, "\n") {
+						if strings.HasPrefix(ln, "github.com/volatiletech/authboss/v3") {
+							frame = strings.SplitN(ln, "(", 2)[0]
+							break
+						}
+					}
+					total.Violations = append(total.Violations, sim.VioRec{Violation: sim.Violation{Prop: ck.ID, Sig: ck.ID + "|process-crash|concurrent-map-access|" + frame,
+						Msg: "the Go runtime aborted the process (fatal error: concurrent map access) with library code on the stack: " + frame}, Index: w, Detail: msg})
+					return
+				}
 				why := fmt.Sprintf("worker %d produced no result (%v)", w, err)
 				if ctx.Err() != nil {
 					why = fmt.Sprintf("worker %d hit the wall-clock watchdog (%s)", w, limit)
